@@ -705,7 +705,7 @@ fn main() {
             run_guards(&args, &mut rep, None);
             run_values(&args, &mut rep, None);
             san::run(&args, &mut rep);
-            rep.rule = "every kernel of every flavour run with every operand (each input, the input-pointer array, key/CV, block, and an output sized exactly 32*num_inputs / 64*blocks) flush against a PROT_NONE page, once on the right and once on the left, over block_len 0..=64, input counts 0..=2*degree+3 (35 thorough) x blocks {1,16} x counters x increment, xof_many 1..=40 blocks; each case in a child process, a fault is the violation; the whole C05 shape space re-run with canaries around every output; every assembly / C call goes through a trampoline that loads sentinels into all callee-saved registers of the target convention (System V: rbx rbp r12-r15; Win64 also rsi rdi xmm6-xmm15) and checks them, rsp and DF afterwards; plus the C library and C intrinsics built with clang -fsanitize=address,undefined and driven through update/finalize_seek histories and kernel calls on exact-size heap buffers; non-trivial = distinct guarded calls".into();
+            rep.rule = "every kernel of every flavour run with every operand (each input, the input-pointer array, key/CV, block, and an output sized exactly 32*num_inputs / 64*blocks) flush against a PROT_NONE page, once on the right and once on the left, over block_len 0..=64, input counts 0..=2*degree+3 (35 thorough) x blocks {1,16} x counters x increment, xof_many 1..=40 blocks; each case in a child process, a fault is the violation; the whole C05 shape space re-run with canaries around every output; every assembly / C call goes through a trampoline that loads sentinels into all callee-saved registers of the target convention (System V: rbx rbp r12-r15; Win64 also rsi rdi xmm6-xmm15) and checks them, rsp and DF afterwards, and that places the stack deterministically, rotating call by call through the four 16-byte-aligned entry positions modulo 64 (a frame that is wrong for one entry alignment only is hit on every run); plus the C library and C intrinsics built with clang -fsanitize=address,undefined and driven through update/finalize_seek histories and kernel calls on exact-size heap buffers; non-trivial = distinct guarded calls".into();
             rep.sample(json!({"kernel": "unix_asm/avx2", "op": "hash_many", "guard": "right", "num_inputs": 5, "blocks": 16, "counter": "4294967295", "increment": true}));
             rep.assumptions.push("undefined behaviour in the Rust intrinsics that neither faults nor changes results is not observable here".into());
             rep.assumptions.push("Win64 assembly is run as ELF after renaming .rdata; behaviour depending on a real Windows loader is out of reach".into());
